@@ -3,6 +3,7 @@
 //! and the cargo-fuzz target (in-process executor E2).
 
 pub mod arena;
+pub mod big;
 pub mod c07;
 pub mod c15;
 pub mod consume;
